@@ -598,6 +598,17 @@ func verifyFunc(prog *ssa.Program, spkg *ssa.Package, contracts *Contracts, fn *
 		if len(fc.rets) > 1 {
 			suffix = fmt.Sprintf("@ret%d", k)
 		}
+		for _, cl := range c.Clauses {
+			if cl.Kind != "retsite" || cl.Loop != returnOrdinal(fn, r.pos) {
+				continue
+			}
+			name := cl.Name
+			if name == "" {
+				name = "clause"
+			}
+			g := fc.evalClause(env, cl, tr.topKey)
+			tr.oblige("post", fmt.Sprintf("retsite/%s/ret%d/%s", tr.topKey, cl.Loop, name), g, r.pos, clauseProps(cl, tr.topProps), cl.Src)
+		}
 		for i, cl := range c.Clauses {
 			if cl.Kind != "ensures" && cl.Kind != "law" {
 				continue
@@ -960,6 +971,27 @@ func callOrdinal(fn, callee *ssa.Function, pos token.Pos) int {
 				continue
 			}
 			ps = append(ps, ci.Pos())
+		}
+	}
+	sort.Slice(ps, func(i, j int) bool { return ps[i] < ps[j] })
+	for i, p := range ps {
+		if p == pos {
+			return i
+		}
+	}
+	return -1
+}
+
+// returnOrdinal: the index of the return statement at pos among the return statements of fn, in source order.
+func returnOrdinal(fn *ssa.Function, pos token.Pos) int {
+	var ps []token.Pos
+	seen := map[token.Pos]bool{}
+	for _, b := range fn.Blocks {
+		for _, in := range b.Instrs {
+			if r, ok := in.(*ssa.Return); ok && r.Pos() != token.NoPos && !seen[r.Pos()] {
+				seen[r.Pos()] = true
+				ps = append(ps, r.Pos())
+			}
 		}
 	}
 	sort.Slice(ps, func(i, j int) bool { return ps[i] < ps[j] })
